@@ -81,8 +81,9 @@ def ref(t, k, v):
 def gen_world(rnd):
     n = rnd.randint(1, 9)
     tasks = []
+    base = 0 if rnd.random() < 0.3 else 1          # a plan numbered from 0: the first task (often the parent of all others) has a falsy id
     for k in range(n):
-        kw = {'id': k + 1, 'name': rnd.choice([None, 'alpha', 'beta', 'ab', 'x1']), 'resource': rnd.choice([None, 'R1', 'R2']),
+        kw = {'id': k + base, 'name': rnd.choice([None, 'alpha', 'beta', 'ab', 'x1']), 'resource': rnd.choice([None, 'R1', 'R2']),
               'estimate': rnd.choice([None, 0, 1, 2.5, 8]), 'spent': rnd.choice([None, 0, 1, 3]), 'milestone': rnd.random() < 0.2}
         if rnd.random() < 0.5:
             kw['start'] = D0 + td(days=rnd.randint(0, 5))
